@@ -184,7 +184,7 @@ def extract(config="default", repo=None, target=None, quiet=False):
     return out
 
 
-def _gc_facts(keep, max_keep=10):
+def _gc_facts(keep, max_keep=40):
     root = os.path.join(CACHE, "facts")
     ds = [d for d in os.listdir(root) if os.path.isdir(os.path.join(root, d)) and d != keep and d != "test"]
     ds.sort(key=lambda d: os.path.getmtime(os.path.join(root, d)))
